@@ -7,6 +7,7 @@ import G3D.Model.PlaneForms
 import G3D.Model.Tol
 import G3D.Model.Heap
 import G3D.Model.Judge
+import G3D.Model.K5
 open G3D
 
 /-! Line-protocol driver of the executable model: one case per input line, one result line per case.
@@ -318,7 +319,7 @@ def handle (line : String) : String :=
     | none => "bad-op"
   | "validB" :: rest =>
     match (do let f ← nat; many f (do let n ← v3; let k ← nat; let pts ← many k v3; pure (n, pts)) : P _).run rest with
-    | some (faces, _) => showBool (polyhedronValidB faces)
+    | some (faces, _) => showBool (polyhedronValidB faces && interiorF faces)
     | none => "bad-op"
   | "mkG" :: rest =>
     match (do let k ← nat; many k v3 : P _).run rest with
